@@ -484,4 +484,45 @@ def kindFromTables (t : Nat) : Kind :=
         else if Gen.Script.LEGACY_OPERATIONS.contains op then .operation
         else .unknown                      -- unknown_op_code
 
+
+/-- what the arm `op == "<name>"` of `_run_ops` is in this model -/
+def armOf (name : String) : Kind :=
+  if name == "OP_CHECKSIG" then .checksig
+  else if name == "OP_CHECKMULTISIG" then .checkmultisig
+  else if name == "OP_CHECKLOCKTIMEVERIFY" then .cltv
+  else if name == "OP_CHECKSEQUENCEVERIFY" then .csv
+  else if name == "OP_CODESEPARATOR" then .codesep
+  else if name == "OP_IF" then .opIf
+  else if name == "OP_NOTIF" then .opNotif
+  else if name == "OP_ELSE" then .opElse
+  else if name == "OP_ENDIF" then .opEndif
+  else if name == "OP_NOP" then .nop
+  else .unknown
+
+/-- `op[k:].isdigit()` -/
+def digitsAfter (k : Nat) (name : String) : Option Nat :=
+  let d := name.toList.drop k
+  if d.isEmpty || !d.all Char.isDigit then none else some (d.foldl (fun acc c => acc * 10 + (c.toNat - 48)) 0)
+
+/-- the if/elif chain REGENERATED from the AST of `_run_ops` (`Gen.Script.LEGACY_DISPATCH`: tests in source order),
+    interpreted on an op code's name with Python's meaning of the tests; `ops` are the OPERATIONS keys -/
+def chainKind (ops : List String) : List (String × String) → String → Kind
+  | [], _ => .unknown
+  | (test, lit) :: rest, op =>
+    if test == "eq" then (if op == lit then armOf lit else chainKind ops rest op)
+    else if test == "digits" then
+      (match digitsAfter (lit.toList.foldl (fun acc c => acc * 10 + (c.toNat - 48)) 0) op with
+       | some n => .digit n
+       | none => chainKind ops rest op)
+    else if test == "contains" then
+      (if containsSub op.toList lit.toList then (if lit == "OP_NOP" then .nopN else .unknown) else chainKind ops rest op)
+    else if test == "in" then
+      (if lit == "OPERATIONS" && ops.contains op then .operation else chainKind ops rest op)
+    else .unknown   -- the final `else: unknown_op_code(op)`
+
+def kindFromChain (t : Nat) : Kind :=
+  match Gen.Script.OP_NAMES.lookup t with
+  | none => .unknown                       -- op_code_name raises
+  | some op => chainKind Gen.Script.LEGACY_OPERATIONS Gen.Script.LEGACY_DISPATCH op
+
 end Btc.Script.Btclib
